@@ -22,11 +22,14 @@ How the model reads the tables:
 * `guards`: `IsTaskUpToDate` is skipped under `skipFingerprinting` (`--force`); the prompt
   is skipped when dry; `mkdir` is skipped when dry (`Cfg.fixed.dryMkdir = false`; unguarded in
   the tree as found); `execext.RunCommand` is unreachable when dry; `statusOnError` is
-  called inside the command loop only.
+  called at two places: when the prompt is declined (under `!e.Dry`, like the prompt itself) and
+  inside the command loop.
 * `checksumIsUpToDate`: read old → compute new → write under `!checker.dry && oldHash !=
   newHash` → generates check → `return oldHash == newHash` (`sumCheck`).
 * `timestampIsUpToDate`: Globs sources, Globs generates, Stat marker, append marker | create
   under `!checker.dry`, `time.Now`, max, newer?, `Chtimes` under `!checker.dry` (`tsCheck`).
+* `checksumSum`: per source, `filepath.Rel(t.Dir, f)` → `filepath.ToSlash` → hash, then the
+  content (`nameOf`, `stream`); `fingerOrder_checksumName_ok` pins the arguments.
 * `checksumOnError` removes the file when the task has sources; `timestampOnError` does nothing.
 * keys: checksum `normalizeFilename(t.Name())`, timestamp `normalizeFilename(t.Task)`,
   regexp `[^A-z0-9]` → `-`.
@@ -65,6 +68,7 @@ theorem dryWiring_guards_ok :
     DryWiring.guards.filter (fun g => fingerGuardKeys.contains g.1) =
       [("Executor.RunTask:fingerprint.IsTaskUpToDate", "!skipFingerprinting"),
        ("Executor.RunTask:e.Logger.Prompt", "range t.Prompt && p != \"\" && !e.Dry"),
+       ("Executor.RunTask:e.statusOnError", "range t.Prompt && p != \"\" && !e.Dry"),
        ("Executor.RunTask:e.mkdir", "!e.Dry"),
        ("Executor.RunTask:e.runCommand", "range t.Cmds && !(t.Cmds[i].Defer)"),
        ("Executor.RunTask:e.statusOnError", "range t.Cmds && !(t.Cmds[i].Defer)"),
@@ -98,12 +102,20 @@ theorem fingerOrder_checksumOnError_ok : FingerOrder.checksumOnError = [("return
 
 theorem fingerOrder_checksumSum_ok : FingerOrder.checksumSum = [("Globs", ""),
   ("xxh3.New", ""),
+  ("filepath.Rel", "range sources"),
   ("io.CopyBuffer", "range sources"),
-  ("filepath.Base", "range sources"),
+  ("filepath.ToSlash", "range sources"),
   ("os.Open", "range sources"),
   ("io.CopyBuffer", "range sources"),
   ("h.Sum128", ""),
   ("return fmt.Sprintf(\"%x%x\", hash.Hi, hash.Lo), nil", "")] := by rfl
+
+/-- what is written into the hash before a file's content: `nameOf` = the slash path relative to
+`t.Dir` (the absolute path itself if `filepath.Rel` fails, which it cannot for a match below
+`t.Dir`) -/
+theorem fingerOrder_checksumName_ok :
+    FingerOrder.checksumNameRel = "t.Dir, f" ∧ FingerOrder.checksumNameFallback = "name = f" ∧
+    FingerOrder.checksumNameHashed = "strings.NewReader(filepath.ToSlash(name))" := by decide
 
 theorem fingerOrder_checksumPath_ok : FingerOrder.checksumPath = [("filepath.Join", ""),
   ("normalizeFilename", ""),
